@@ -10,7 +10,7 @@ From ET Require Import Proofs.OapiSpec.
 Inductive case :=
 | OComp (setup : list (N * cimat)) (q : creq) (resp : cresp) (store_same : bool)
     (* an adversarial but well-typed compute request; [store_same]: a stored matrix reads back identically afterwards *)
-| ORaw (endpoint : N) (status : N) (body_is_json panicked hang store_same degenerate : bool)
+| ORaw (endpoint : N) (status : N) (body_is_json panicked hang store_same degenerate long : bool)
     (* arbitrary bytes as a JSON body: 0 compute, 1 compute-with-stats, 2 PUT local-trust, 3 other routes/methods;
        [degenerate]: the body carries a number of magnitude >= 1e150 (sums may overflow: a 500 is then accepted) *)
 | GAdv (requests : list GrpcCase.cgreq) (responses : list GrpcCase.cgresp)
@@ -25,7 +25,7 @@ Definition check (c : case) : bool :=
   match c with
   | OComp setup q r _ => resp_matches (oapi_compute 1500 default_eps (put_all setup) (to_req q)) r
   | GAdv rs os => GrpcCase.ghist_matches (@Grpc.g0 F64) rs os
-  | ORaw _ _ _ _ _ _ _ | Bytes _ _ _ | Huge _ _ => true
+  | ORaw _ _ _ _ _ _ _ _ | Bytes _ _ _ | Huge _ _ => true
   end.
 
 (** ** the property on what was observed *)
@@ -84,6 +84,27 @@ Fixpoint invalid_args_ok (rs : list GrpcCase.cgreq) (os : list GrpcCase.cgresp) 
   | _, _ => true
   end.
 
+(** a compute that references a collection which no earlier call of this history created is invalid input
+    and must be reported as such: NotFound (or InvalidArgument when a parameter is out of range as well) *)
+Definition memN (x : N) (l : list N) : bool := existsb (N.eqb x) l.
+Definition created (o : GrpcCase.cgresp) : bool :=
+  match o with GrpcCase.RCreated _ => true | GrpcCase.RStatus c => N.eqb c 0 | _ => false end.
+Fixpoint unknown_ids_ok (rs : list GrpcCase.cgreq) (os : list GrpcCase.cgresp) (ms vs : list N) : bool :=
+  match rs, os with
+  | r :: rs', o :: os' =>
+      match r with
+      | GrpcCase.CMCreate i | GrpcCase.CMCreateAuto i => unknown_ids_ok rs' os' (if created o then i :: ms else ms) vs
+      | GrpcCase.CVCreate i | GrpcCase.CVCreateAuto i => unknown_ids_ok rs' os' ms (if created o then i :: vs else vs)
+      | GrpcCase.CCompute l pre g pos _ _ _ =>
+          (let known := memN l ms && memN g vs && match pre with Some p => memN p vs | None => true end
+                        && match pos with Some p => memN p vs | None => true end in
+           known || match o with GrpcCase.RStatus c => N.eqb c 5 || N.eqb c 3 | _ => false end)
+          && unknown_ids_ok rs' os' ms vs
+      | _ => unknown_ids_ok rs' os' ms vs
+      end
+  | _, _ => true
+  end.
+
 Definition holds (c : case) : bool :=
   match c with
   | OComp setup q r same =>
@@ -95,9 +116,10 @@ Definition holds (c : case) : bool :=
       | CHang => alpha_zero q || demands_long q     (* requests with positive alpha must terminate *)
       | CPanic | COther _ => false
       end
-  | ORaw ep st js panicked hang same degenerate =>
-      negb panicked && negb hang && same && (status_ok ep st || (degenerate && N.eqb st 500)) && js
-  | GAdv rs os => forallb gcode_ok os && refusals_ok rs os && invalid_args_ok rs os
+  | ORaw ep st js panicked hang same degenerate long =>
+      (* [long]: the damaged body still decodes to a request that itself demands >= 1000 iterations *)
+      negb panicked && (negb hang || long) && same && (status_ok ep st || (degenerate && N.eqb st 500) || (hang && long)) && js
+  | GAdv rs os => forallb gcode_ok os && refusals_ok rs os && invalid_args_ok rs os && unknown_ids_ok rs os [] []
   | Bytes _ returned panicked => returned && negb panicked
   | Huge _ survived => survived
   end.
